@@ -12,6 +12,8 @@ ops (one history = everything since the last `reset`), see go/cmd/c10/main.go:
   append <name:hex> <bytes:hex>    the lock holder (another process) appends to the article
   finish <id>                      its phase B, on whatever the index and the article hold by now
   expire <id>                      the lock is kept beyond its five attempts: the lock error, nothing changes
+  redir <dir:hex>                  the board index is rewritten by another tool
+  zone <location>                  configured TIME_LOCATION (no effect on the model: the time is a parameter)
   mark <type>
   dump
 -/
@@ -189,9 +191,22 @@ def stepC10 (d : DSt) (ws : List String) : DSt × String :=
     | some q =>
       let target := (findLinear d.st.dir.bytes (d.st.dir.bytes.length / dirSz) q.name).map
         (fun k => cstr ((record d.st.dir.bytes dirSz k).take Gen.RecFile.lenFilename))
-      if via ≠ "ptt" || !ticketId id || d.tickets.any (fun e => e.1 == id) || d.tickets.length ≥ 8
+      if !ticketId id || d.tickets.any (fun e => e.1 == id) || d.tickets.length ≥ 8
           || (target.isSome && d.tickets.any (fun e => e.2.1 == target)) then (d, "bad-op")
       else ({ d with tickets := d.tickets ++ [(id, target, phaseA findLinear d.cfg d.st q)] }, "started")
+  | ["zone", z] =>
+    -- the time part of a line is a parameter of the model (masked on the implementation side after it was judged)
+    if !d.tickets.isEmpty || !(["Asia/Taipei", "UTC", "America/New_York", "Pacific/Kiritimati", "Asia/Kathmandu"].contains z)
+    then (d, "bad-op") else (d, "ok")
+  | ["redir", dir] =>
+    if !d.have_ then (d, "bad-op") else
+    match parseHexStrict dir with
+    | some dir =>
+      if dir.length > 1048576 then (d, "bad-op")
+      else
+        let st := { d.st with dir := ⟨true, dir⟩ }
+        ({ d with st }, "ok " ++ stateStr st)
+    | none => (d, "bad-op")
   | ["append", n, bs] =>
     if !d.have_ then (d, "bad-op") else
     match parseHexStrict n, parseHexStrict bs with
